@@ -27,6 +27,32 @@ Definition old_form (old p : list N) : Prop :=
 (* the reference resolves to something *)
 Definition resolves (w : world) (m : N) (r : id) : Prop := exists x, designates w m r x.
 
+(* ---------- the container move: path collisions ----------
+   move_element_local / move_element_full call make_unique_item_name only when the MOVED element is identifiable.  When a
+   non-identifiable container (ELEMENTS, AR-PACKAGES, ...) is moved, the identifiable elements it holds get the path
+   dest ++ suffix without any check: if that path is already in the index, two elements share one path and the index
+   entry is overwritten (finding C04-move-container-duplicates-paths).  [nocollision_b idents src dest]: no key
+   src ++ suffix (suffix non-empty) of the index has its new name dest ++ suffix in the index already. *)
+Definition nocollision_b (idents : list (list N * id)) (src dest : list N) : bool :=
+  forallb (fun e => match strip_prefix src (fst e) with
+                    | Some (c :: t) => match assoc_get (dest ++ c :: t) idents with None => true | Some _ => false end
+                    | _ => true
+                    end) idents.
+
+Definition collision06 (w : world) (h mv : id) : bool :=
+  match w_nodes w h, w_nodes w mv with
+  | Some n, Some mn =>
+    match path_unchecked T mn w, path_unchecked T n w, model_of mv w with
+    | Val (OK src, _), Val (OK dest, _), Val (OK m, _) =>
+      match model_at w m with
+      | Some xm => negb (nocollision_b (m_idents xm) src dest)
+      | None => false
+      end
+    | _, _, _ => false
+    end
+  | _, _ => false
+  end.
+
 (* the part of the operation alphabet for which the move theorems of C06 are NOT proved (covered by the correspondence
    and the implementation-side oracle only): the moved element is not identifiable (a container: the per-path re-keying
    loop), or source and destination lie in different models (move_element_full) *)
